@@ -684,6 +684,10 @@ class Model:
                 self.equations = ca.substitute(self.equations, symbols, values)
             if len(self.initial_equations) > 0:
                 self.initial_equations = ca.substitute(self.initial_equations, symbols, values)
+            if len(self.delay_arguments) > 0:
+                self.delay_arguments = self._substitute_delay_arguments(
+                    self.delay_arguments, symbols, values
+                )
             self.parameters = unspecified_parameters
 
             # Replace parameter values in metadata
